@@ -38,6 +38,10 @@ type LConv struct {
 	ExtIn string `json:"ext_in,omitempty"`
 	// Short: only the first method is declared (the output gets shorter).
 	Short bool `json:"short,omitempty"`
+	// UnsafeZero: the converter also declares an update method with
+	// update:ignoreZeroValueField:basic over structs that hold an unsafe.Pointer field (a
+	// basic type whose zero value is nil).
+	UnsafeZero bool `json:"unsafe_zero,omitempty"`
 	// PkgFirst: the output:package line is written above the output:file line.
 	PkgFirst bool `json:"pkg_first,omitempty"`
 	// Raw is a goverter:output:raw line.
@@ -79,6 +83,9 @@ type LSpec struct {
 	// GuardedUser adds a user file guarded by the output constraint that references the
 	// generated identifiers of the first healthy struct-format converter.
 	GuardedUser bool `json:"guarded_user,omitempty"`
+	// Common: every converter additionally converts []commontypes.Item → []commontypes.ItemOut
+	// (types of a shared package), so that all converters need a helper of the same name.
+	Common bool `json:"common,omitempty"`
 	// LinkedFiles: declaring file (dir/file) → path of the regular file it is a symbolic link
 	// to (a shared source kept outside every package directory). Outputs stay relative to the
 	// declaring file, i.e. to the link.
@@ -116,6 +123,7 @@ func normPkgName(dir string) string {
 	}
 	return out
 }
+
 
 // Prediction of the C15 reference model for one converter.
 type Predicted struct {
@@ -240,6 +248,15 @@ func (s *LSpec) render() map[string]string {
 			fmt.Fprintf(&b, "//go:build %s\n\n", fc)
 		}
 		fmt.Fprintf(&b, "package %s\n\n", s.PkgNames[dir])
+		if s.Common {
+			fmt.Fprintf(&b, "import %q\n\n", importPath("commontypes"))
+		}
+		for _, c := range convs {
+			if c.UnsafeZero {
+				b.WriteString("import \"unsafe\"\n\n")
+				break
+			}
+		}
 		for _, c := range convs {
 			if c.Defect == "syntax" {
 				// an unbalanced brace ABOVE the converter declaration: the parser swallows it
@@ -265,6 +282,9 @@ func (s *LSpec) render() map[string]string {
 	}
 	for _, gd := range s.guardedDecls {
 		files[gd[0]] = gd[1]
+	}
+	if s.Common {
+		files["commontypes/types.go"] = "package commontypes\n\ntype Item struct{ V int }\ntype ItemOut struct{ V int }\n"
 	}
 	if s.WrapPkg {
 		files["errwrap/wrap.go"] = "package errwrap\n\ntype Elem struct{ K, V string }\n\nfunc Wrap(err error, elems ...Elem) error { return err }\nfunc Key(k any) Elem          { return Elem{K: \"key\"} }\nfunc Index(i int) Elem        { return Elem{K: \"index\"} }\nfunc Field(s string) Elem     { return Elem{K: \"field\"} }\n"
@@ -357,6 +377,9 @@ func (s *LSpec) renderConv(b *strings.Builder, c *LConv) {
 	if c.Short {
 		sig1 = ""
 	}
+	if c.UnsafeZero && !c.GuardedDecl {
+		lines = append(lines, "// goverter:update:ignoreZeroValueField:basic")
+	}
 	m1 := ""
 	if sig1 != "" {
 		if c.Kind == "interface" {
@@ -364,6 +387,14 @@ func (s *LSpec) renderConv(b *strings.Builder, c *LConv) {
 		} else {
 			m1 = fmt.Sprintf("    %s func%s\n", c.method(1), sig1)
 		}
+	}
+	if c.UnsafeZero && !c.GuardedDecl {
+		if c.Kind == "interface" {
+			m1 += fmt.Sprintf("    // goverter:update target\n    %s(source Uz%s, target *UzOut%s)\n", c.method(2), n, n)
+		} else {
+			m1 += fmt.Sprintf("    // goverter:update target\n    %s func(source Uz%s, target *UzOut%s)\n", c.method(2), n, n)
+		}
+		defer fmt.Fprintf(b, "type Uz%s struct {\n    Label string\n    Handle unsafe.Pointer\n}\ntype UzOut%s struct {\n    Label string\n    Handle unsafe.Pointer\n}\n\n", n, n)
 	}
 	if c.Kind == "interface" && c.GuardedDecl {
 		s.guardedDecls = append(s.guardedDecls, [2]string{
@@ -380,8 +411,12 @@ func (s *LSpec) renderConv(b *strings.Builder, c *LConv) {
 		raw, cooked = "Raw"+n, "Cooked"+n
 		fmt.Fprintf(b, "type Raw%s int\ntype Cooked%s int\n", n, n)
 	}
-	fmt.Fprintf(b, "type %s struct {\n    %s %s\n    %s string\n    %s []Sub%s\n}\n", in, fa, raw, fb, fc, n)
-	fmt.Fprintf(b, "type %s struct {\n    %s %s\n    %s string\n    %s []SubOut%s\n}\n", out, fa, cooked, fb, fc, n)
+	cin, cout := "", ""
+	if s.Common {
+		cin, cout = "    Common []commontypes.Item\n", "    Common []commontypes.ItemOut\n"
+	}
+	fmt.Fprintf(b, "type %s struct {\n    %s %s\n    %s string\n    %s []Sub%s\n%s}\n", in, fa, raw, fb, fc, n, cin)
+	fmt.Fprintf(b, "type %s struct {\n    %s %s\n    %s string\n    %s []SubOut%s\n%s}\n", out, fa, cooked, fb, fc, n, cout)
 	fmt.Fprintf(b, "type Sub%s struct{ V%d int }\ntype SubOut%s struct{ V%d int }\n", n, c.Version, n, c.Version)
 	if c.Defect == "conversion" {
 		fmt.Fprintf(b, "type Bad%s struct{ Unmappable%s chan int }\n", n, n)
@@ -677,6 +712,16 @@ func DrawLayout(rng *rand.Rand, nConv int, opts LayoutOpts) *LSpec {
 	if rng.IntN(4) == 0 {
 		s.PlainPkgs = []string{[]string{"plainpkg", "zz/plainpkg", "aa_plain"}[rng.IntN(3)]}
 	}
+	if opts.UnsafeZero {
+		for i := range s.Convs {
+			if rng.IntN(4) == 0 {
+				s.Convs[i].UnsafeZero = true
+			}
+		}
+	}
+	if opts.Common && rng.IntN(3) == 0 {
+		s.Common = true
+	}
 	if opts.Symlinks && rng.IntN(5) == 0 {
 		c := s.Convs[rng.IntN(len(s.Convs))]
 		s.LinkedFiles = map[string]string{path.Join(c.Dir, c.File): "_shared/src/" + strings.ReplaceAll(path.Join(c.Dir, c.File), "/", "_")}
@@ -692,6 +737,8 @@ type LayoutOpts struct {
 	UserPkgs    bool
 	GuardedUser bool
 	Symlinks    bool
+	Common      bool
+	UnsafeZero  bool
 }
 
 // Bump changes the type version of every converter (old outputs stop compiling).
@@ -780,6 +827,27 @@ func CoverageSpecs() []*LSpec {
 					out = append(out, l)
 				}
 			}
+		}
+	}
+	return append(out, MergeSpecs()...)
+}
+
+// MergeSpecs: converters of different declaring packages (and of one package) merged into one
+// output file, in every output format, all needing a helper of the same name.
+func MergeSpecs() []*LSpec {
+	var out []*LSpec
+	for _, of := range []string{"@cwd/merged/out.go", "@cwd/svc/conv/generated/generated.go"} {
+		for _, format := range []string{"function", "struct", "variables"} {
+			s := &LSpec{UserPkgs: map[string]string{}, PkgNames: map[string]string{"svc/conv": "conv", "api/conv": "conv", "a": "a"}, Common: true}
+			mk := func(dir, file, name string) LConv {
+				c := LConv{Dir: dir, File: file, Kind: "interface", Name: name, OutFile: of, Version: 1, Format: format}
+				if format == "variables" {
+					c.Kind, c.Format = "variables", ""
+				}
+				return c
+			}
+			s.Convs = []LConv{mk("svc/conv", "conv.go", "Ma"), mk("api/conv", "api.go", "Mb"), mk("svc/conv", "conv.go", "Mc"), mk("a", "other.go", "Md")}
+			out = append(out, s)
 		}
 	}
 	return out
